@@ -21,6 +21,7 @@ EXPLANATION = (
     "(5) total_*/in_* constants and truncation. NOT decided: float effects of `total % m * 1e6`/round, "
     "equality with timedelta for huge totals, rebuild-from-components."
     ' Also: the pendulum.duration() factory forwards every parameter to the constructor parameter of the same name; the guards around the lazily computed hours/minutes digits only skip values below the unit; the component tuples used by copy/pickle rebuild the same Duration.'
+    " As built: DIVMOD.tabulated runs the whole Duration.__new__ / AbsoluteDuration.__new__ with the checker's interpreter (rules/durstub.py; the C base class is the standard library's timedelta) on 53 argument tuples and compares the stored state (native value, years/months, weeks..microseconds digits, _total) with the specification; where it succeeds the shape clauses (1), (2), (4) are established by it and only decide for code outside the interpreter."
 )
 
 
